@@ -4593,3 +4593,169 @@ func init() {
 		}
 	})
 }
+
+// ---- round 10, C19 ----
+func init() {
+	// the deletion variants pick the same record: the first whose hash matches
+	txt := "every deletion variant removes the first record whose hash matches: in the WritableBTreeV2.Delete* functions the arm of the comparison of a record's NameHash with the wanted hash leaves the search loop (without the break the variant removes the last match: two names with colliding hashes leave different content depending on the rebalancing mode)"
+	shareRule([]string{"C19", "C14"}, txt, "C19", func(c *Ctx, r *Result, id string) {
+		n := 0
+		for _, fn := range c.LibFuncs() {
+			if !strings.HasPrefix(c.Name(fn), "structures.WritableBTreeV2.Delete") || fn.Blocks == nil {
+				continue
+			}
+			k := 0
+			for _, b := range fn.Blocks {
+				ifi, ok := b.Instrs[len(b.Instrs)-1].(*ssa.If)
+				if !ok {
+					continue
+				}
+				cmp, ok := ifi.Cond.(*ssa.BinOp)
+				if !ok || cmp.Op != token.EQL || !(valueReadsField(cmp.X, "structures.LinkNameRecord.NameHash", 0) || valueReadsField(cmp.Y, "structures.LinkNameRecord.NameHash", 0)) {
+					continue
+				}
+				// the loop this test is in
+				var hdr *ssa.BasicBlock
+				for _, h := range fn.Blocks {
+					isHdr := false
+					for _, p := range h.Preds {
+						if h.Dominates(p) {
+							isHdr = true
+						}
+					}
+					if isHdr && naturalLoop(h)[b] && (hdr == nil || naturalLoop(hdr)[h]) {
+						hdr = h
+					}
+				}
+				if hdr == nil {
+					continue
+				}
+				loop := naturalLoop(hdr)
+				n++
+				k++
+				leaves := true
+				cur := b.Succs[0]
+				for i := 0; i < 8 && loop[cur]; i++ {
+					if cur == hdr {
+						leaves = false
+						break
+					}
+					if _, isJump := cur.Instrs[len(cur.Instrs)-1].(*ssa.Jump); !isJump {
+						break // a further decision inside the loop: not followed
+					}
+					cur = cur.Succs[0]
+				}
+				if cur == hdr {
+					leaves = false
+				}
+				r.Check(leaves, id, fmt.Sprintf("%s#first-match-ends-the-search-%d", c.Name(fn), k), c.InstrPos(cmp), "the arm taken when the hash matches does not run on to the next iteration")
+			}
+		}
+		if n < 2 {
+			r.Shortfall(c, id, fmt.Sprintf("%s: only %d hash searches in the deletion variants", id, n))
+		}
+	})
+
+	// the selector's memory is updated as a pair
+	id := nextRuleID("C19")
+	registry["C19"].Meta.Rules[id] = "the remembered mode and the time it was decided are updated together: in SelectConfig every store to lastMode has a store to lastDecisionTime in the same basic block and vice versa (a time that is only refreshed when the mode changes lets a proposal through one stability period after the first of several confirming decisions, not after the last)"
+	registry["C19"].Rules = append(registry["C19"].Rules, func(c *Ctx, r *Result) {
+		fn := c.FnOpt("rebalancing.ConfigSelector.SelectConfig")
+		if fn == nil {
+			r.Undec(id, "rebalancing.ConfigSelector.SelectConfig#memory-updated-as-a-pair", "", "function not found")
+			return
+		}
+		blocks := map[*ssa.BasicBlock]map[string]ssa.Instruction{}
+		instrs(fn, func(in ssa.Instruction) {
+			st, ok := in.(*ssa.Store)
+			if !ok {
+				return
+			}
+			fa, ok := st.Addr.(*ssa.FieldAddr)
+			if !ok {
+				return
+			}
+			f, base := fieldOfAddr(fa)
+			if f == nil {
+				return
+			}
+			key := fieldKey(base.Type(), f)
+			if key == "rebalancing.ConfigSelector.lastMode" || key == "rebalancing.ConfigSelector.lastDecisionTime" {
+				if blocks[in.Block()] == nil {
+					blocks[in.Block()] = map[string]ssa.Instruction{}
+				}
+				blocks[in.Block()][f.Name()] = in
+			}
+		})
+		n := 0
+		for _, b := range fn.Blocks {
+			m := blocks[b]
+			if m == nil {
+				continue
+			}
+			n++
+			var at ssa.Instruction
+			for _, in := range m {
+				at = in
+			}
+			r.Check(len(m) == 2, id, fmt.Sprintf("rebalancing.ConfigSelector.SelectConfig#memory-updated-as-a-pair-%d", n), c.InstrPos(at), fmt.Sprintf("%d of the two memory fields are stored in this block", len(m)))
+		}
+		if n < 1 {
+			r.Shortfall(c, id, id+": no store to the selector's memory in SelectConfig")
+		}
+	})
+
+	// a default replaces every non-positive duration
+	id2 := nextRuleID("C19")
+	registry["C19"].Meta.Rules[id2] = "a default replaces every value that cannot be used: where a comparison of a time.Duration with 0 guards the assignment of a positive constant to that same field, the comparison is <= 0 (with < 0 an interval of 0 reaches time.NewTicker, which panics in the background goroutine: the process dies where the default configuration would have written the same content)"
+	registry["C19"].Rules = append(registry["C19"].Rules, func(c *Ctx, r *Result) {
+		n := 0
+		for _, fn := range c.LibFuncs() {
+			pk := shortPkg(fnPkgPath(fn))
+			if fn.Blocks == nil || (pk != "structures" && pk != "rebalancing" && pk != "hdf5") {
+				continue
+			}
+			k := 0
+			for _, b := range fn.Blocks {
+				ifi, ok := b.Instrs[len(b.Instrs)-1].(*ssa.If)
+				if !ok {
+					continue
+				}
+				cmp, ok := ifi.Cond.(*ssa.BinOp)
+				if !ok || cmp.X.Type().String() != "time.Duration" {
+					continue
+				}
+				if z, isK := constInt(cmp.Y); !isK || z != 0 {
+					continue
+				}
+				ld, isLd := isLoad(cmp.X)
+				if !isLd {
+					continue
+				}
+				f, _ := fieldOfAddr(ld.X)
+				if f == nil {
+					continue
+				}
+				assigns := false
+				for _, in := range b.Succs[0].Instrs {
+					if st, isSt := in.(*ssa.Store); isSt {
+						if f2, _ := fieldOfAddr(st.Addr); f2 == f {
+							if v, isK := constInt(st.Val); isK && v > 0 {
+								assigns = true
+							}
+						}
+					}
+				}
+				if !assigns {
+					continue
+				}
+				n++
+				k++
+				r.Check(cmp.Op == token.LEQ, id2, fmt.Sprintf("%s#default-for-%s", c.Name(fn), f.Name()), c.InstrPos(cmp), fmt.Sprintf("the default is assigned under %s %s 0", f.Name(), cmp.Op))
+			}
+		}
+		if n < 2 {
+			r.Shortfall(c, id2, fmt.Sprintf("%s: only %d duration defaults found", id2, n))
+		}
+	})
+}
